@@ -387,6 +387,9 @@ func VerifRunQueue(cfg VerifCfg, ch VerifChooser) *VerifObs {
 	if !cfg.ExpiryForms {
 		e.pinned["expiry"] = true
 	}
+	if e.pinned["localfile"] { // caller-side input faults are one family
+		e.pinned["adderr"] = true
+	}
 	dir := Download
 	if cfg.Upload {
 		dir = Upload
@@ -448,7 +451,15 @@ func VerifRunQueue(cfg VerifCfg, ch VerifChooser) *VerifObs {
 					path = filepath.Join(cfg.Scratch, "wrongsize")
 				}
 			}
-			q.Add("file-"+name, path, oid, 10, missing, nil)
+			// the caller may hand Add an error it met while preparing the object (commands/uploader.go does): the
+			// queue must report it; the object never enters the queue
+			var addErr error
+			e.mu.Lock()
+			if e.env("adderr", 2) == 1 {
+				addErr = errors.New("add-error-for-" + oid[:4])
+			}
+			e.mu.Unlock()
+			q.Add("file-"+name, path, oid, 10, missing, addErr)
 		}
 		q.Wait()
 		for w := 0; w < cfg.Watchers; w++ {
